@@ -32,6 +32,13 @@ let string_of_bytes (l : Model.byte list) : String.t =
 let () =
   selftest ();
   match Array.to_list Sys.argv with
+  | _ :: "gen" :: fam :: seed :: n :: _ ->
+      let rec pos_of_int i = if i = 1 then Model.XH else if i land 1 = 0 then Model.XO (pos_of_int (i lsr 1)) else Model.XI (pos_of_int (i lsr 1)) in
+      let n_of_int i = if i = 0 then Model.N0 else Model.Npos (pos_of_int i) in
+      List.iter (fun l -> print_endline (string_of_bytes l))
+        (Model.gen_lines (bytes_of_string fam) (n_of_int (int_of_string seed)) (n_of_int (int_of_string n)))
+  | _ :: "families" :: _ ->
+      List.iter (fun n -> print_endline (string_of_bytes n)) Model.family_names
   | _ :: "entries" :: _ ->
       List.iter (fun n -> print_endline (string_of_bytes n)) Model.entry_names
   | _ ->
